@@ -1,4 +1,5 @@
 use vh::procsys::*;
+use vh::report::Report;
 use vh::simnet::*;
 
 fn probe(src: &str, workers: usize, strat: Strategy, seed: u64) {
@@ -20,5 +21,57 @@ fn main() {
         let workers = args.get(3).and_then(|s| s.parse().ok()).unwrap_or(2);
         let seed = args.get(4).and_then(|s| s.parse().ok()).unwrap_or(1);
         for strat in [Strategy::Eager, Strategy::Uniform, Strategy::Lazy] { probe(&src, workers, strat, seed); }
+        return;
     }
+    if args.len() >= 3 && args[1] == "replay" {
+        let j: serde_json::Value = serde_json::from_str(&std::fs::read_to_string(&args[2]).unwrap()).unwrap();
+        let w = &j["witness"];
+        let src = w["source"].as_str().unwrap();
+        let workers = w["workers"].as_u64().unwrap() as usize;
+        let acts: Vec<Act> = w["actions"].as_array().unwrap().iter().filter_map(act_from_json).collect();
+        let upto: usize = args.get(3).and_then(|s| s.parse().ok()).unwrap_or(acts.len());
+        let b = vh::qv::builtins();
+        let bc = compile_entry(src, &b).unwrap();
+        let mut sim = Sim::new(workers, &b, false, None);
+        let st = start_program(&mut sim, bc).unwrap();
+        let verbose = args.get(4).is_some();
+        for (i, a) in acts.iter().take(upto).enumerate() {
+            if verbose && i + 12 >= upto.min(acts.len()) || (verbose && args.get(5).is_some() && i >= args[5].parse::<usize>().unwrap()) {
+                if let Some(p) = sim.process(st.pid) {
+                    let fr = p.frames.last().map(|f| (f.function_index, f.counter));
+                    let instr = fr.and_then(|(fi, c)| sim.env.get_program().get_function(fi).and_then(|f| f.instructions.get(c).copied()));
+                    println!("before {} {:?}: root frames={} top={:?} instr={:?} stack={} locals={} select={:?} awaiting={:?} sched={:?}", i, a, p.frames.len(), fr, instr, p.stack.len(), p.locals.len(),
+                        p.select_state.as_ref().map(|s| (s.sources.len(), s.receiving.is_some(), s.start_time)), p.awaiting.keys().collect::<Vec<_>>(), sim.workers[0].verif_executor().verif_sched_view());
+                }
+            }
+            sim.act(*a);
+            if verbose {
+                sim.with_log(|log| for e in log.iter().filter(|e| e.at == i + 1) { let d = format!("{:?}", e.item); println!("    log {:?} w{} {}", e.stage, e.worker, &d[..d.len().min(150)]); });
+                let f = fates(&sim, st.pid);
+                let failed: Vec<_> = f.iter().filter(|(_, v)| matches!(v, Fate::Failed(_))).collect();
+                if !failed.is_empty() { println!("after action {} {:?}: failed {:?}", i, a, failed); break; }
+            }
+        }
+        println!("trouble={:?}", sim.trouble);
+        for (n, f) in fates(&sim, st.pid) { println!("  {} => {}", n, match f { Fate::Done(v) => v.show(), o => format!("{:?}", o) }); }
+        return;
+    }
+    if args.len() >= 3 && args[1] == "gen" {
+        let seed: u64 = args[2].parse().unwrap();
+        let mut rng = vh::rng::Rng::new(seed);
+        let sc = vh::scen::generate(&mut rng, &vh::scen::GenCfg { max_nodes: 6, max_depth: 3, confluent: args.get(3).map(|s| s == "c").unwrap_or(true), fail_permille: 0, binaries: true });
+        println!("{}", sc.emit());
+        return;
+    }
+    if args.len() < 3 { eprintln!("usage: vcheck <ID> <quick|thorough>"); std::process::exit(2); }
+    let id = args[1].as_str();
+    let tier = args[2].as_str();
+    let seed: u64 = std::env::var("VERIF_SEED").ok().and_then(|s| s.parse().ok()).unwrap_or(1);
+    vh::pool::quiet_panics();
+    let rep = Report::new(id, tier, seed);
+    let code = match id {
+        "C03" => { vh::c03::check(&rep); rep.finish(vh::c03::RULE, vh::c03::ASSUME, &[]) }
+        _ => { eprintln!("unknown property {}", id); 2 }
+    };
+    std::process::exit(code);
 }
